@@ -25,6 +25,8 @@ def run(res, only=None):
     cases = os.path.join(core.WORK, res.prop, "cases.out")
     res.add_tlc(core.run_tlc("MC_C01", res.tier, cases, workers=8))
     core.replay_bin(res, "lane", cases, cfgs, expect_ops=EXPECT_OPS)
+    # Sum / Product of the float vectors are the lane-wise folds from ZERO / ONE, for 0..3 items (the fold machine MC_Fold.tla)
+    core.fold_cases(res, [c for c in cfgs if c in ("sse2", "scalar", "coresimd", "sse2-rel")], ["vec"], scalar="float")
     # code -> spec: the same operations on RANDOM bit patterns, logged by `rec float` and judged by TLC (Trace_Lanes / IeeeW)
     rec_cfgs = [c for c in ("sse2", "scalar", "coresimd", "fma", "libm", "sse2-rel") if c in cfgs]
     core.record_and_validate(res, "float", rec_cfgs, draws=2 if res.tier == "quick" else 40,
